@@ -142,11 +142,11 @@ func runThreads(c ThreadCase, o *Obs) error {
 	go func() { wg.Wait(); close(done) }()
 	select {
 	case <-done:
-	case <-time.After(120 * time.Second):
+	case <-time.After(300 * time.Second):
 		var sb strings.Builder
 		pprof.Lookup("goroutine").WriteTo(&sb, 1)
-		fmt.Fprintf(os.Stderr, "WATCHDOG: connections did not finish within 120s\n%s\n", sb.String())
-		return fmt.Errorf("DEADLOCK-OR-HANG: after 120 s not every connection has finished its (sub-second) workload; goroutine dump written to the log")
+		fmt.Fprintf(os.Stderr, "WATCHDOG: connections did not finish within 300s\n%s\n", sb.String())
+		return fmt.Errorf("DEADLOCK-OR-HANG: after 300 s not every connection has finished its (sub-second) workload; goroutine dump written to the log")
 	}
 	for ci, r := range results {
 		if r.err != nil {
